@@ -206,6 +206,14 @@ func evalCase(c *runner.Ctx, fs []fieldSpec, msgMode bool, variant int, tagMode 
 	p, o, desc := build(fs, msgMode, variant, tagMode)
 	var err error
 	pan, msg, site := runner.Guard(func() {
+		// two calls the library rejects (nil, typed nil pointer of the same type), each carrying per-call rules for
+		// every field: what a rejected call was given plays no part in the call that follows
+		leak := valid.RM{}
+		for i := range fs {
+			leak[fmt.Sprintf("F%d", i)] = "required|left behind by a rejected call"
+		}
+		_ = valid.Struct(nil, leak)
+		_ = valid.Struct(reflect.Zero(p.Type()).Interface(), leak)
 		if tagMode {
 			err = valid.Struct(p.Interface())
 		} else {
